@@ -540,6 +540,25 @@ def run_calibration(case, R):
             compare_snaps(R, before, snapshot_all(P, parset, None, None), "after-error")
             return {"records": R.records(), "stats": R.stats, "nontrivial": False, "sample": sample}
         compare_snaps(R, before, snapshot_all(P, parset, None, None), "completed")
+        # the degenerate requests work on copies too: nothing to compare with (no measurables) still returns an independent
+        # parameter set and leaves the caller's set and project alone, through the function and through Project.calibrate
+        for how in ("function", "project"):
+            before_d = snapshot_all(P, parset, None, None)
+            try:
+                if how == "function":
+                    new_d = C.calibrate(P, parset, list(pars_to_adjust), [], max_time=5, maxiters=1)
+                else:
+                    new_d = P.calibrate(parset=parset, adjustables=list(pars_to_adjust), measurables=[], max_time=5, maxiters=1, save_to_project=False)
+            except Exception as e_:
+                R.count("degenerate_calibration_refused[%s]" % type(e_).__name__)
+                compare_snaps(R, before_d, snapshot_all(P, parset, None, None), "degenerate-refused")
+                continue
+            R.count("degenerate_calibrations_completed")
+            compare_snaps(R, before_d, snapshot_all(P, parset, None, None), "degenerate")
+            if new_d is parset or any(new_d is x for x in P.parsets.values()):
+                R.bad("works-on-copies", "C15:calibration-returns-the-callers-own-parset[no-measurables,%s]" % how, {"returned_is_callers": new_d is parset})
+            else:
+                R.ok("works-on-copies")
         N_ref = nproc["n"]
         R.count("reference_runs_completed")
         R.count("simulations_in_reference_runs", N_ref)
